@@ -49,6 +49,7 @@ type syDrv struct {
 	rng        *rand.Rand
 	tw         *trace.Writer
 	twMu       sync.Mutex
+	cntMu      sync.Mutex
 	cs         *ckServer
 	n          int
 	kinds      []string
@@ -75,7 +76,12 @@ func (d *syDrv) emit(m trace.M) {
 	d.twMu.Unlock()
 }
 
-func (d *syDrv) count(k string) { d.cnt[k]++ }
+// (the poller counts its samples from its own goroutine)
+func (d *syDrv) count(k string) {
+	d.cntMu.Lock()
+	d.cnt[k]++
+	d.cntMu.Unlock()
+}
 
 // makeSource builds the source log: kinds, terms (non-decreasing), payload sizes.
 func (d *syDrv) makeSource(n int) {
@@ -175,56 +181,161 @@ func (syClusterInfo) GetSnapshotSyncInfo(string) ([]common.SnapshotSyncInfo, err
 }
 func (syClusterInfo) UpdateMeForNamespaceLeader(string) (bool, error) { return true, nil }
 
-// senderRound: a (re)started log syncer of the source cluster - the real logSyncerSM with its
-// send loop and gRPC sender, pointed at the receiver's gRPC port.  Its raft replays entries j..m
-// (j at or below the destination's synced position after a sender restart, m above it) into the
-// state machine before the send loop runs, so they are buffered as ONE batch that overlaps the
-// destination's position.  Every entry above that position has to arrive.
+// newSender: one incarnation of the source cluster's log syncer - the real logSyncerSM with its send
+// loop and gRPC sender, pointed at the receiver's gRPC port.
+func (d *syDrv) newSender() (node.StateMachine, error) {
+	return node.NewStateMachine(&node.KVOptions{}, node.MachineConfig{LearnerRole: common.LearnerRoleLogSyncer,
+		RemoteSyncCluster: "test://127.0.0.1:" + strconv.Itoa(d.cs.grpc)}, 1, "default-0", syClusterInfo{}, wait.New(), nil)
+}
+
+// senderSaid waits until the sender itself reports everything up to m as synced.
+func senderSaid(sm node.StateMachine, m int, rounds int) bool {
+	st, ok := sm.(interface {
+		GetLogSyncStats() (metric.LogSyncStats, metric.LogSyncStats)
+	})
+	if !ok {
+		return false
+	}
+	for w := 0; w < rounds; w++ {
+		if _, synced := st.GetLogSyncStats(); synced.Index >= uint64(m) {
+			return true
+		}
+		time.Sleep(20 * time.Millisecond)
+	}
+	return false
+}
+
+// feed plays source entries lo..hi into a sender's state machine, as the syncer learner's raft does
+// when it applies (or, after a restart, replays) its log; pause > 0: with small random pauses, so that
+// the running send loop cuts the stream into several batches.
+func (d *syDrv) feed(sm node.StateMachine, lo, hi int, pause bool, stop chan struct{}) {
+	for i := lo; i <= hi; i++ {
+		sm.ApplyRaftRequest(false, nil, d.reqList(i), d.terms[i-1], uint64(i), stop)
+		if pause && d.rng.Intn(3) == 0 {
+			time.Sleep(time.Duration(d.rng.Intn(400)) * time.Microsecond)
+		}
+	}
+}
+
+func seqInts(lo, hi int) []int {
+	var b []int
+	for i := lo; i <= hi; i++ {
+		b = append(b, i)
+	}
+	return b
+}
+
+// senderRound: what the sending side does, with the real sender, in one of several shapes:
+//
+//	prefed       a restarted sender whose raft replays j..m (j at or below the destination's position) before
+//	             its send loop runs: ONE buffered batch that overlaps the destination's position
+//	stream       the loop runs first, the entries follow with pauses: Buffer / Flush interleave, several batches
+//	recvrestart  as one of the above, and the RECEIVER is stopped and started while the batch is in flight:
+//	             the sender's rpc fails (group not ready) and is retried until it gets through
+//	two          two incarnations (the old leader's syncer still flushing while the new one starts) with
+//	             overlapping ranges, running at the same time
+//
+// Whatever happens on the way, when a sender reports m as synced the destination must be at m (or beyond),
+// and its data must be the source prefix with every entry once.
 func (d *syDrv) senderRound() {
 	k := d.synced()
-	if k+12 > d.n || d.multi != nil {
+	if k+24 > d.n || d.multi != nil {
 		return
 	}
+	shape := []string{"prefed", "stream", "recvrestart", "two", "prefed", "stream"}[d.rng.Intn(6)]
+	if shape == "recvrestart" && !d.restarts {
+		shape = "stream"
+	}
 	j := clampInt(k+1-d.rng.Intn(7), 1, k+1)
-	m := k + 1 + d.rng.Intn(8)
-	sm, err := node.NewStateMachine(&node.KVOptions{}, node.MachineConfig{LearnerRole: common.LearnerRoleLogSyncer,
-		RemoteSyncCluster: "test://127.0.0.1:" + strconv.Itoa(d.cs.grpc)}, 1, "default-0", syClusterInfo{}, wait.New(), nil)
+	if d.rng.Intn(6) == 0 {
+		j = clampInt(k-20-d.rng.Intn(20), 1, k+1) // a sender that lost much of its own progress
+	}
+	m := k + 1 + d.rng.Intn(10)
+	stop := make(chan struct{})
+	a, err := d.newSender()
 	if err != nil {
 		return
 	}
-	stop := make(chan struct{})
-	var batch []int
-	for i := j; i <= m; i++ {
-		batch = append(batch, i)
-		sm.ApplyRaftRequest(false, nil, d.reqList(i), d.terms[i-1], uint64(i), stop)
-	}
-	d.emit(trace.M{"ev": "send", "batch": batch})
-	sm.Start()
-	// until the sender itself says that everything up to m is at the destination
-	said := false
-	if st, ok := sm.(interface {
-		GetLogSyncStats() (metric.LogSyncStats, metric.LogSyncStats)
-	}); ok {
-		for w := 0; w < 250 && !said; w++ {
-			_, synced := st.GetLogSyncStats()
-			said = synced.Index >= uint64(m)
-			if !said {
-				time.Sleep(20 * time.Millisecond)
-			}
+	batch := seqInts(j, m)
+	hi := m
+	var b node.StateMachine
+	j2, m2 := 0, 0
+	if shape == "two" {
+		if b, err = d.newSender(); err != nil {
+			return
+		}
+		j2 = clampInt(k+1-d.rng.Intn(5), 1, k+1)
+		m2 = k + 1 + d.rng.Intn(14)
+		batch = append(batch, seqInts(j2, m2)...)
+		if m2 > hi {
+			hi = m2
 		}
 	}
-	sm.Close()
+	d.emit(trace.M{"ev": "send", "batch": batch})
+	restarted := make(chan error, 1)
+	if shape == "recvrestart" {
+		delay := time.Duration(d.rng.Intn(1500)) * time.Microsecond
+		go func() {
+			time.Sleep(delay)
+			restarted <- d.restart()
+		}()
+	} else {
+		restarted <- nil
+	}
+	switch shape {
+	case "prefed":
+		d.feed(a, j, m, false, stop)
+		a.Start()
+	case "two":
+		d.feed(a, j, m, false, stop)
+		done := make(chan struct{})
+		go func() {
+			b.Start()
+			d.feedOther(b, j2, m2, stop)
+			close(done)
+		}()
+		a.Start()
+		<-done
+	default:
+		a.Start()
+		d.feed(a, j, m, true, stop)
+	}
+	said := senderSaid(a, m, 900)
+	if b != nil {
+		said = senderSaid(b, m2, 900) && said
+	}
+	rerr := <-restarted
+	a.Close()
+	if b != nil {
+		b.Close()
+	}
 	code, msg := 0, ""
 	if !said {
-		code, msg = 1, "the sender did not report the batch as synced in time"
+		code, msg = 1, "a sender did not report its entries as synced in time"
 	}
-	d.emit(trace.M{"ev": "deliver", "batch": batch, "bad": 0, "code": code, "msg": msg, "via": "logSyncerSM"})
+	d.emit(trace.M{"ev": "deliver", "batch": batch, "bad": 0, "code": code, "msg": msg, "via": "logSyncerSM-" + shape})
 	d.count("deliveries")
 	d.count("deliveries_by_real_sender")
+	d.count("sender_" + shape)
 	if j <= k {
 		d.count("sender_batches_overlapping_destination_position")
 	}
+	if rerr != nil {
+		d.emit(trace.M{"ev": "abort", "what": "receiver restart: " + rerr.Error()})
+		return
+	}
+	if shape == "recvrestart" {
+		d.obs("restart")
+		return
+	}
 	d.obs("deliver")
+}
+
+// feedOther: feed for the second incarnation (its own random source would race with the first's).
+func (d *syDrv) feedOther(sm node.StateMachine, lo, hi int, stop chan struct{}) {
+	for i := lo; i <= hi; i++ {
+		sm.ApplyRaftRequest(false, nil, d.reqList(i), d.terms[i-1], uint64(i), stop)
+	}
 }
 
 // recvServer: the server deliveries go to (multi-replica: the current leader).
@@ -350,7 +461,9 @@ func (d *syDrv) deliver(batch []int, bad int) {
 	}
 	d.emit(trace.M{"ev": "deliver", "batch": batch, "bad": bad, "code": code, "msg": msg})
 	d.count("deliveries")
+	d.cntMu.Lock()
 	d.cnt["entries_delivered"] += len(batch)
+	d.cntMu.Unlock()
 	d.obs("deliver")
 }
 
@@ -684,7 +797,7 @@ func (d *syDrv) poller() {
 				if key != last {
 					last = key
 					d.emit(trace.M{"ev": "sample", "si": si, "cnt": c, "llen": ll, "strlen": len(s)})
-					d.cnt["samples"]++
+					d.count("samples")
 				}
 			}
 		}
@@ -791,7 +904,7 @@ func (d *syDrv) randomSequence(steps int) error {
 			}
 			d.deliver(b, 0)
 			lastBatch = b
-		case c < 86:
+		case c < 85:
 			d.forceSnapshot()
 		case c < 89:
 			d.senderRound()
